@@ -27,9 +27,14 @@ func verifStatusCode(k int) int { return []int{250, 450, 550}[k] }
 // its k-th occurrence, else the return value (421 after a panic). The
 // scheduler explores pre-emptions of the delivery goroutine; a deadlock or a
 // leaked goroutine is a violation.
-func verif_C13_lmtp() {
-	verifPreemptBound(verifBound(1, 2))
-	n := nondetInt(1, verifBound(2, 3))
+func verif_C13_lmtp() { verifC13(2, verifBound(1, 2)) }
+
+// three recipients, one pre-emption (thorough tier only)
+func verif_C13_lmtp3_thorough() { verifC13(3, 1) }
+
+func verifC13(maxRcpt, preempt int) {
+	verifPreemptBound(preempt)
+	n := nondetInt(1, maxRcpt)
 	addrs := []string{"a@v", "b@v"}
 	rcpts := make([]int, n)
 	for i := range rcpts {
